@@ -68,6 +68,7 @@ static A_RESIDUAL: AtomicU64 = AtomicU64::new(0);
 static A_FABRICATED: AtomicU64 = AtomicU64::new(0);
 static Q_DET_BY_CONSTRUCTION: AtomicU64 = AtomicU64::new(0);
 static Q_CYCLIC: AtomicU64 = AtomicU64::new(0);
+static ENGINE_PANICS: AtomicU64 = AtomicU64::new(0);
 
 pub struct Env {
     pub s: Session,
@@ -91,6 +92,14 @@ pub fn mk_env() -> Env {
 }
 
 impl Env {
+    /// a machine that panicked is replaced (the driver only does that after a failure)
+    fn heal(&mut self) {
+        if self.s.poisoned {
+            let n = self.n;
+            *self = mk_env();
+            self.n = n.max(1);
+        }
+    }
     /// flush user_output and take everything written so far (output is only handed to the
     /// callback on flush_output/1)
     fn drain(&mut self) -> String {
@@ -388,7 +397,15 @@ pub fn check_query(env: &mut Env, q: &QSpec) -> Result<QInfo, Verdict> {
     env.drain();
 
     // --- reference run: scryer's own findall over the same text
-    let raw = ask_list(env, &format!("c29_sols({qc}, {nt}, L)"))?;
+    // a panic while the query runs under plain findall/3 (no toplevel code involved) is the
+    // engine's (C07 known findings: cut inside \+, register allocator), not this property's
+    let raw = match ask_list(env, &format!("c29_sols({qc}, {nt}, L)")) {
+        Err(Verdict::Fail { signature, .. }) if signature.starts_with("panic:") => {
+            ENGINE_PANICS.fetch_add(1, Ordering::Relaxed);
+            return Err(Verdict::Discard(format!("engine-panic-outside-toplevel:{}", &signature[6..])));
+        }
+        other => other?,
+    };
     let mut sols: Vec<T> = vec![];
     let mut ball: Option<T> = None;
     for (i, r) in raw.iter().enumerate() {
@@ -801,13 +818,18 @@ pub fn prog_strategy() -> BoxedStrategy<ProgCase> {
 }
 
 pub fn check_prog(env: &mut Env, case: &ProgCase) -> Verdict {
+    env.heal();
     let prefix = format!("t{}x_", env.n);
     env.n += 1;
     let c = rename_case(&case.gen, &prefix);
     let text = render_program(&c.prog);
     match crate::props::c07::load(&mut env.s, &text, &format!("t{}", env.n)) {
         Ok(()) => {}
-        Err(crate::props::c07::LoadErr::Panic(m)) => return Verdict::fail(format!("panic:{}", m.split_whitespace().next().unwrap_or("?")), format!("consult panicked: {m}\n{text}")),
+        // a panic of the compiler on the generated program is C07's finding, not a toplevel matter
+        Err(crate::props::c07::LoadErr::Panic(m)) => {
+            ENGINE_PANICS.fetch_add(1, Ordering::Relaxed);
+            return Verdict::Discard(format!("engine-panic-outside-toplevel:{}", m.split_whitespace().next().unwrap_or("?")));
+        }
         Err(crate::props::c07::LoadErr::Rejected(m)) => return Verdict::Discard(format!("load-rejected:{}", m.chars().take(30).collect::<String>())),
     }
     let mut interp = Interp::new(&c.prog);
@@ -845,6 +867,8 @@ pub fn check_prog(env: &mut Env, case: &ProgCase) -> Verdict {
             }
             Err(Verdict::Fail { signature, detail }) => return Verdict::Fail { signature, detail: format!("{detail}\nprogram:\n{text}") },
             Err(Verdict::Discard(r)) if r == "cyclic-solution" || r == "scc-run-differs" => continue,
+            // the session is poisoned after a panic: give the case up (heal() rebuilds the machine)
+            Err(Verdict::Discard(r)) if r.starts_with("engine-panic") => return Verdict::Discard(r),
             Err(v) => return v,
         }
     }
@@ -1158,6 +1182,7 @@ pub fn shape_strategy() -> BoxedStrategy<ShapeCase> {
 }
 
 pub fn check_shape(env: &mut Env, case: &ShapeCase) -> Verdict {
+    env.heal();
     let names_all = var_names(case.scheme, NV as usize);
     let qtext = case.goal.text(&names_all);
     let mut vs = vec![];
@@ -1277,6 +1302,7 @@ static BIN_FRESH_RUN: AtomicU64 = AtomicU64::new(0);
 const BIN_SHRINK_BUDGET: u64 = 40;
 
 fn check_bin_inner(env: &mut Env, case: &BinCase) -> Verdict {
+    env.heal();
     if env.n == 0 {
         if BIN_FRESH_RUN.fetch_add(1, Ordering::Relaxed) >= BIN_SHRINK_BUDGET {
             return Verdict::pass(false, &["binary:shrink-budget-exhausted"]);
@@ -1290,7 +1316,11 @@ fn check_bin_inner(env: &mut Env, case: &BinCase) -> Verdict {
     let text = render_program(&c.prog);
     match crate::props::c07::load(&mut env.s, &text, &format!("b{}", env.n)) {
         Ok(()) => {}
-        Err(crate::props::c07::LoadErr::Panic(m)) => return Verdict::fail(format!("panic:{}", m.split_whitespace().next().unwrap_or("?")), format!("consult panicked: {m}\n{text}")),
+        // a panic of the compiler on the generated program is C07's finding, not a toplevel matter
+        Err(crate::props::c07::LoadErr::Panic(m)) => {
+            ENGINE_PANICS.fetch_add(1, Ordering::Relaxed);
+            return Verdict::Discard(format!("engine-panic-outside-toplevel:{}", m.split_whitespace().next().unwrap_or("?")));
+        }
         Err(crate::props::c07::LoadErr::Rejected(m)) => return Verdict::Discard(format!("load-rejected:{}", m.chars().take(30).collect::<String>())),
     }
     // (query text, names, constraint-free)
@@ -1397,6 +1427,7 @@ fn add_counters(d: &mut Driver) {
     put("queries_deterministic_by_construction", &Q_DET_BY_CONSTRUCTION);
     put("queries_discarded_cyclic_solution", &Q_CYCLIC);
     put("queries_through_binary_entry", &BIN_QUERIES);
+    put("engine_panics_outside_toplevel_not_judged", &ENGINE_PANICS);
 }
 
 pub struct C29;
